@@ -50,6 +50,8 @@ func (c c15Config) marker() string {
 	switch c.Phase {
 	case "unresolved-dependency":
 		return "c15Unmapped"
+	case "status-code-the-underlying-writer-refuses":
+		return "invalid WriteHeader code" // the underlying writer's own panic value, whatever kind is configured
 	}
 	switch c.Value {
 	case "string":
@@ -173,6 +175,23 @@ func c15Build(c c15Config) *c15World {
 						c.doPanic()
 					})
 					_, _ = ctx.ResponseWriter().Write([]byte("partial"))
+				case "inside-two-before-functions":
+					// two functions registered to run before the first write, both panic: containing the first must
+					// not set the second one off outside Recovery's reach
+					for k := 0; k < 2; k++ {
+						ctx.ResponseWriter().Before(func(flamego.ResponseWriter) {
+							w.events = append(w.events, "before-function")
+							if k := ctx.Request().Header.Get("X-Kind"); k != "" {
+								c15PanicWith(k)
+							}
+							c.doPanic()
+						})
+					}
+					_, _ = ctx.ResponseWriter().Write([]byte("partial"))
+				case "status-code-the-underlying-writer-refuses":
+					// the panic is raised by the underlying writer (as net/http's does for a code outside 100..999)
+					// in the middle of the handler's WriteHeader: no status has been sent
+					ctx.ResponseWriter().WriteHeader(1000)
 				case "after-cancelling-the-request-context":
 					// the request goes on under a context of the handler's making, which is cancelled by the time
 					// of the panic (a deadline that ran out): no status has been sent, so the client gets 500
@@ -314,7 +333,8 @@ type c15Resp struct {
 
 func (w *c15World) serve(path string, kind ...string) c15Resp {
 	w.events = nil
-	spy := &c01Spy{hdr: http.Header{}}
+	// (a writer as strict about status codes as net/http's)
+	spy := &c01Spy{hdr: http.Header{}, strict: true}
 	var esc interface{}
 	req := newReq("GET", path)
 	if len(kind) > 0 {
@@ -424,7 +444,7 @@ func c15Configs(thorough bool) []c15Config {
 	if thorough {
 		maxN = 5
 	}
-	phases := []string{"before-write", "after-status", "after-body", "after-next", "unresolved-dependency", "after-failed-hijack-and-push", "after-flush", "deep-recursion", "after-next-unanswered", "after-cancelling-the-request-context", "inside-a-before-function"}
+	phases := []string{"before-write", "after-status", "after-body", "after-next", "unresolved-dependency", "after-failed-hijack-and-push", "after-flush", "deep-recursion", "after-next-unanswered", "after-cancelling-the-request-context", "inside-a-before-function", "inside-two-before-functions", "status-code-the-underlying-writer-refuses"}
 	values := []string{"string", "error", "runtime", "struct", "abort", "nil-error-pointer", "panicking-stringer"}
 	styles := []string{"use", "route", "group", "use-action", "route-action"}
 	for n := 2; n <= maxN; n++ {
@@ -436,7 +456,7 @@ func c15Configs(thorough bool) []c15Config {
 							if ph == "unresolved-dependency" && v != "string" {
 								continue
 							}
-							if (ph == "after-failed-hijack-and-push" || ph == "after-flush" || ph == "deep-recursion" || ph == "after-next-unanswered" || ph == "after-cancelling-the-request-context" || ph == "inside-a-before-function") && v != "string" && v != "runtime" && !thorough {
+							if (ph == "after-failed-hijack-and-push" || ph == "after-flush" || ph == "deep-recursion" || ph == "after-next-unanswered" || ph == "after-cancelling-the-request-context" || ph == "inside-a-before-function" || ph == "inside-two-before-functions" || ph == "status-code-the-underlying-writer-refuses") && v != "string" && v != "runtime" && !thorough {
 								continue
 							}
 							for _, st := range styles {
